@@ -139,7 +139,10 @@ def one_case(rep, pa, rng, case):
     ep("CorpusShufflingTool(categories=)", lambda c, d: pa.CorpusShufflingTool(0.5, c, categories=["zz_extra"]).corpus_from_reference(2), True)
     ep("corpus_shuffle(all)", lambda c, d: pa.CorpusShufflingTool(0.5, c).corpus_shuffle(2, shift=True, false_pos=True, false_neg=True, split=True, cat_shuffle=True), True)
     ep("corpus_shuffle(include_ref)", lambda c, d: pa.CorpusShufflingTool(0.3, c).corpus_shuffle(["x", "y"], shift=True, include_ref=True), True)
+    only = case.get("only")
     for name, f, returns_cont, may_bws in entry_points:
+        if only is not None and name not in only:
+            continue
         c, d = fresh()
         np.random.seed(rng.randrange(2 ** 31))
         sc, sd = snap_cont(c), snap_dissim(pa, d)
@@ -166,6 +169,8 @@ def one_case(rep, pa, rng, case):
             ok = mutate_and_check(rep, pa, dict(desc, entry=name), "input", c, name + "#result", out) and ok
         rep.count("entry=" + name)
         rep.case(sample={"entry": name, "dissim": case["spec"], "unchanged": ok}, nontrivial_key=(repr(case["units"]), case["spec"], name) if returns_cont else None)
+    if only is not None:
+        return
     # __getitem__ returns deep copies
     c, d = fresh()
     a0 = list(c.annotators)[0]
@@ -223,6 +228,14 @@ def run(rep, tier, seed, pa):
         if any(len(u) == 0 for u in case["units"]):
             continue
         one_case(rep, pa, rng, case)
+    # continua large enough for fast mode to take its windowed route (the documented exception really happens: a finite window size is stored;
+    # everything else must stay as it was, and what copy / copy_flush return - they carry that size - must stay independent)
+    for bi in range(2 if tier == "quick" else 10):
+        units = gen.gen_units(rng, 5, [rng.randrange(10, 14) for _ in range(5)], rng.choice(["perturbed", "random"]), gen.LABEL_SETS["abc"])
+        spec = rng.choice([("pos", 1.0), ("comb", 1.0, 1.0, 1.0, "abs", "abc", "asis")])
+        rep.count("large_enough_to_be_windowed")
+        one_case(rep, pa, rng, {"units": units, "spec": spec, "only": ["get_fast_alignment", "compute_gamma(fast)", "measure_best_window_size", "copy", "copy_flush",
+                                                                       "get_first_window", "ShuffleContinuumSampler(float)", "StatisticalContinuumSampler"]})
     heap_histories(rep, pa, rng, 60 if tier == "quick" else 600)
 
 
@@ -299,6 +312,8 @@ def replay(rep, data, pa):
         return False
     ac.install_backend_hooks()
     case = {"units": [[tuple(u) for u in us] for us in data["units"]], "spec": tuple(data["dissim"]), "pattern": "replay", "unlabelled": False}
+    if sum(len(us) for us in case["units"]) > 40 and data.get("entry"):
+        case["only"] = [data["entry"]]       # a continuum large enough to be windowed: only the recorded entry point is re-run
     one_case(rep, pa, rng_for(data.get("seed", 0), "C14-replay"), case)
     for key, path, what in rep.violations:
         print("  (%s) %s" % (key, what))
